@@ -11814,9 +11814,11 @@ func (l *Lowerer) foldClamp(val, lo, hi ir.LiteralValue) (ir.ExpressionHandle, b
 		v, _ := literalToI64(val)
 		low, _ := literalToI64(lo)
 		high, _ := literalToI64(hi)
+		// min(max(v, low), high): with low > high the result is high, as at run time
 		if v < low {
 			v = low
-		} else if v > high {
+		}
+		if v > high {
 			v = high
 		}
 		return l.interruptEmitter(ir.Expression{
@@ -11827,9 +11829,11 @@ func (l *Lowerer) foldClamp(val, lo, hi ir.LiteralValue) (ir.ExpressionHandle, b
 		v, _ := literalToF64(val)
 		low, _ := literalToF64(lo)
 		high, _ := literalToF64(hi)
+		// min(max(v, low), high): with low > high the result is high, as at run time
 		if v < low {
 			v = low
-		} else if v > high {
+		}
+		if v > high {
 			v = high
 		}
 		return l.interruptEmitter(ir.Expression{
